@@ -16,8 +16,11 @@ open Radix Radix.Proto Radix.Nf
 structure DSt where
   r : Option Res
   nextRuid : Nat
+  /-- the test account has a vault of the resource (something was deposited before): without one
+      `Account::burn_non_fungibles` fails with `VaultDoesNotExist` before the vault's auth check -/
+  hasVault : Bool
 
-def initD : DSt := ⟨none, 0⟩
+def initD : DSt := ⟨none, 0, false⟩
 
 def typeCode (c : Char) : Option Nat :=
   if c = 's' then some 0 else if c = 'i' then some 1 else if c = 'b' then some 2 else if c = 'r' then some 3 else none
@@ -102,7 +105,10 @@ def answer (r : Res) (e : Option Err) (ids : List Id) : String :=
 
 def doOp (s : DSt) (r : Res) (op : Op) (ids : List Id) : DSt × String :=
   let (r', e) := step r op
-  ({ s with r := some r' }, answer r' e ids)
+  let dep := match op, e with
+    | .mint _, none => true
+    | _, _ => false
+  ({ s with r := some r', hasVault := s.hasVault || dep }, answer r' e ids)
 
 def stepLine (s : DSt) (line : String) : DSt × String :=
   match words line with
@@ -113,8 +119,8 @@ def stepLine (s : DSt) (line : String) : DSt × String :=
       | some t, some mx =>
         if !(nodupIds (es.map (·.1))) then (s, "bad-op") else
         match create (fresh t 3 mx mi bu up tr) es with
-        | .ok r => (⟨some r, 0⟩, answer r none (es.map (·.1)))
-        | .error e => (⟨none, 0⟩, "err:" ++ showErr e)
+        | .ok r => (⟨some r, 0, !es.isEmpty⟩, answer r none (es.map (·.1)))
+        | .error e => (⟨none, 0, false⟩, "err:" ++ showErr e)
       | _, _ => (s, "bad-op")
     | _, _, _, _ => (s, "bad-op")
   | ["mint", es] =>
@@ -129,13 +135,16 @@ def stepLine (s : DSt) (line : String) : DSt × String :=
       let es := (List.range vs.length).zip vs |>.map (fun (k, v) => ((ruidType, s.nextRuid + k), v))
       let (r', e) := step r (.mintRuid es)
       match e with
-      | none => (⟨some r', s.nextRuid + vs.length⟩, answer r' none (es.map (·.1)))
-      | some e => (⟨some r', s.nextRuid⟩, answer r' (some e) [])
+      | none => (⟨some r', s.nextRuid + vs.length, true⟩, answer r' none (es.map (·.1)))
+      | some e => (⟨some r', s.nextRuid, s.hasVault⟩, answer r' (some e) [])
     | _, _ => (s, "bad-op")
   | [b, ids] =>
     if b = "burn" ∨ b = "vburn" then
       match s.r, parseIds ids with
-      | some r, some ids => if ids.isEmpty || !(nodupIds ids) then (s, "bad-op") else doOp s r (.burn ids (b = "vburn")) ids
+      | some r, some ids =>
+        if ids.isEmpty || !(nodupIds ids) then (s, "bad-op")
+        else if b = "vburn" ∧ !s.hasVault then (s, answer r (some .notHeld) ids)
+        else doOp s r (.burn ids (b = "vburn")) ids
       | _, _ => (s, "bad-op")
     else if b = "get" then
       match s.r, parseId ids with
